@@ -34,7 +34,7 @@ def cases(tier, seed):
             g["origin"] = [0.0, 0.0, 0.0]
         if i % 4 == 1:
             g["aniso"] = False
-        cs.append({"gen": g, "sel_seed": seed * 71 + i, "npts": 40 if tier == "quick" else 90})
+        cs.append({"gen": g, "sel_seed": seed * 71 + i, "npts": 40 if tier == "quick" else 90, "fmt": dict(ref_ratio_extra=rng.choice([0, 0, 1, 3]), trailing_blank=rng.random() < 0.7, close_blank=rng.random() < 0.3, floatfmt=rng.choice(["repr", "17g"]))})
     return cs
 
 
